@@ -7,7 +7,7 @@ CONSTANTS
   MaxSw = 0
   ResetCfgs <- NoReset
   MaxRecs = 4
-  MaxRuns = 2
+  MaxRuns = 1
   MaxTrig = 1
   MaxExt = 0
   MaxAdv = 1
